@@ -1182,7 +1182,9 @@ func (vf *VerifyFunc) lockOp(st *State, m *Val, op string, in ssa.Instruction) {
 		st.heapSet("L:w", was, store(w, a, "true"))
 		st.locked = append(st.locked, lockRec{a, where})
 		st.heldNow++
+		vf.monitorInv(st, a, false, in)
 	case "unlock":
+		vf.monitorInv(st, a, true, in)
 		if chk {
 			st.check("lock", "unlock-held@"+where, "C14", "Unlock of a mutex that is not held", where, sel(w, a))
 		}
@@ -1197,6 +1199,7 @@ func (vf *VerifyFunc) lockOp(st *State, m *Val, op string, in ssa.Instruction) {
 		st.heapSet("L:r", ras, store(r, a, "(+ "+sel(r, a)+" 1)"))
 		st.locked = append(st.locked, lockRec{a, where})
 		st.heldNow++
+		vf.monitorInv(st, a, false, in)
 	case "runlock":
 		if chk {
 			st.check("lock", "runlock-held@"+where, "C14", "RUnlock without RLock", where, "(> "+sel(r, a)+" 0)")
@@ -1204,6 +1207,50 @@ func (vf *VerifyFunc) lockOp(st *State, m *Val, op string, in ssa.Instruction) {
 		st.heapSet("L:r", ras, store(r, a, "(- "+sel(r, a)+" 1)"))
 		if st.heldNow > 0 {
 			st.heldNow--
+		}
+	}
+}
+
+// monitorInv: monitor invariants of the function under contract. After acquiring the mutex the invariant is assumed
+// (whoever released it last established it); before releasing the write lock it is an obligation.
+func (vf *VerifyFunc) monitorInv(st *State, mutexAddr string, release bool, in ssa.Instruction) {
+	if vf.fc == nil || len(st.frames) != 1 || len(vf.fc.Monitors) == 0 {
+		return
+	}
+	fr := st.frames[0]
+	for _, c := range vf.fc.Monitors {
+		env := vf.loopEnv(fr)
+		ev := &evaluator{st: st, vf: vf, env: env, pkgPath: vf.fc.PkgPath}
+		// the mutex expression may be rooted in a local that has no value yet
+		ids := map[string]bool{}
+		freeIdents(c.Aux, map[string]bool{}, ids)
+		missing := false
+		for id := range ids {
+			if _, ok := env[id]; !ok {
+				if _, ok2 := env["&"+id]; !ok2 {
+					missing = true
+				}
+			}
+		}
+		if missing {
+			continue
+		}
+		mv := ev.eval(c.Aux)
+		if len(ev.err) > 0 || mv == nil {
+			continue
+		}
+		ma := ev.addrOf(mv)
+		t := vf.evalClause(st, c, env, nil)
+		same := eq(mutexAddr, ma)
+		if release {
+			l := c.Label
+			if l == "" {
+				l = c.CallName
+			}
+			cl := vf.eng.info(fr.fn).callOrd[in]
+			st.check("monitor", fmt.Sprintf("%s/%s#%d", l, cl.name, cl.ord), c.Prop, "monitor invariant of "+c.CallName+" holds when the lock is released: "+c.Src, st.pos(in), "(=> "+same+" "+t+")")
+		} else {
+			st.assume("(=> " + same + " " + t + ")")
 		}
 	}
 }
